@@ -174,6 +174,7 @@ def relations(V, law):
         st.update(n=n, a=a, b=b, dt=dt, xi=xi, T1=T1, T2=T2)
         return dict(acc=a, dt=dt, periods=V.np.np_array([T1, T2]), xi=xi)
     for out in V.run(SD + 'nigam_and_jennings_response', setup):
+        out.replay_info = dict(module='response_operator', law=law)
         if not out.no_raise():
             continue
         n, a, b, dt, xi, T1, T2 = (st[k] for k in ('n', 'a', 'b', 'dt', 'xi', 'T1', 'T2'))
